@@ -124,3 +124,149 @@ def take_selected_lacks_rank(struct):
 
 def has_take(struct):
     return any(t["take"] is not None for t in struct["terms"])
+
+
+# ----------------------------------------------------------------------------
+# partitioning
+# ----------------------------------------------------------------------------
+
+def gen_shape_stack(rng, rank, depth, sym_p=0.3, nway_p=0.35):
+    """A stack of `depth` shape directives for `rank` (outermost first) and the symbolic sizes used."""
+    dirs, syms = [], {}
+    size = rng.randint(3, 7)
+    for lvl in range(depth):
+        nway = rng.random() < nway_p
+        val = rng.randint(1, 4) if nway else max(1, size)
+        if rng.random() < sym_p:
+            nm = "%s%sS%d" % (rank, "W" if nway else "U", lvl)
+            syms[nm] = val
+            arg = nm
+        else:
+            arg = str(val)
+        dirs.append(("nway_shape(%s)" if nway else "uniform_shape(%s)") % arg)
+        size = max(1, size // 2) if rng.random() < 0.8 else rng.randint(1, 7)
+    return dirs, syms
+
+
+def levels_of(rank, n):
+    return ["%s%d" % (rank, i) for i in range(n, -1, -1)]
+
+
+def shape_partitioned_mapping(rng, es, max_part_ranks=2, max_depth=3, well_ordered_p=0.3):
+    """Random rank orders + shape partitioning of a subset of ranks + a loop order over all levels."""
+    m = random_mapping(rng, es, loop_order_p=0.0)
+    out = es["out"]
+    k = rng.randint(1, min(max_part_ranks, len(es["ranks"])))
+    prs = rng.sample(es["ranks"], k)
+    part, syms, lv = {}, {}, {}
+    for r in prs:
+        depth = rng.choice([1, 1, 2, 2, 3][:max(1, 2 * max_depth - 1)])
+        depth = min(depth, max_depth)
+        part[r], s = gen_shape_stack(rng, r, depth)
+        syms.update(s)
+        lv[r] = levels_of(r, depth)
+    m["partitioning"] = {out: part}
+    outr = es["decl"][out]
+    allr = list(outr) + [r for r in es["ranks"] if r not in outr]
+    loop = []
+    for r in allr:
+        loop.extend(lv.get(r, [r]))
+    if rng.random() >= well_ordered_p:
+        rng.shuffle(loop)
+    else:
+        # keep each rank's levels outermost-to-innermost, shuffle the interleaving
+        keyed = [(rng.random(), x) for x in loop]
+        order = sorted(range(len(loop)), key=lambda i: keyed[i][0])
+        slots = {}
+        for r in allr:
+            slots[r] = sorted(order.index(i) for i, x in enumerate(loop) if x in lv.get(r, [r]))
+        new = [None] * len(loop)
+        for r in allr:
+            for pos, x in zip(slots[r], lv.get(r, [r])):
+                new[pos] = x
+        loop = new
+    m["loop-order"] = {out: loop}
+    return m, syms
+
+
+def gen_product_einsum(rng, max_ranks=3, max_factors=3):
+    """A single product term (C03's class)."""
+    return gen_plain_einsum(rng, max_ranks=max_ranks, max_terms=1, max_factors=max_factors, take_p=0.0,
+                            scalar_p=0.1, rank0_p=0.0)
+
+
+def holders(es, rank):
+    return [t for t, rs in es["decl"].items() if rank in rs and t != es["out"]]
+
+
+def occupancy_mapping(rng, es, flatten_p=0.35, shape_above_p=0.3):
+    """uniform_occupancy (1-2 levels, alone or beneath a shape split) and/or flatten() of 2-3 ranks of one tensor
+    (+ occupancy of the flattened rank), with a well-ordered loop order."""
+    m = random_mapping(rng, es, loop_order_p=0.0)
+    out = es["out"]
+    part, syms, lv = {}, {}, {}
+    ranks = list(es["ranks"])
+    outr = es["decl"][out]
+    flat = None
+    if len(ranks) >= 2 and rng.random() < flatten_p:
+        # flatten 2-3 ranks held together by one input tensor
+        cands = [t for t, rs in es["decl"].items() if t != out and len(rs) >= 2]
+        if cands:
+            t = rng.choice(cands)
+            k = rng.randint(2, min(3, len(es["decl"][t])))
+            fr = rng.sample(es["decl"][t], k)
+            name = "".join(fr)
+            part["(%s)" % ", ".join(fr)] = ["flatten()"]
+            flat = (fr, name, t)
+            if rng.random() < 0.7:
+                n = rng.choice([1, 1, 2])
+                ds = []
+                size = rng.randint(2, 5)
+                for i in range(n):
+                    ds.append("uniform_occupancy(%s.%d)" % (t, size))
+                    size = max(1, size // 2)
+                part[name] = ds
+                lv[name] = levels_of(name, n)
+            else:
+                lv[name] = [name]
+            # the flattened tensor must hold the flattened ranks adjacently, in this order, at the bottom?  let the
+            # compiler decide: put them last in its rank order
+            rest = [r for r in es["decl"][t] if r not in fr]
+            m["rank-order"][t] = rest + fr
+    free = [r for r in ranks if not flat or r not in flat[0]]
+    if free and (not flat or rng.random() < 0.4):
+        r = rng.choice(free)
+        hs = holders(es, r)
+        if hs:
+            ds = []
+            if rng.random() < shape_above_p:
+                ds.append("uniform_shape(%d)" % rng.randint(3, 6))
+            n = rng.choice([1, 1, 2])
+            size = rng.randint(2, 4)
+            leader = rng.choice(hs)
+            for i in range(n):
+                ds.append("uniform_occupancy(%s.%d)" % (leader, size))
+                size = max(1, size // 2)
+            part[r] = ds
+            lv[r] = levels_of(r, len(ds))
+    if not part:
+        return None, None
+    m["partitioning"] = {out: part}
+    # loop order: units = flattened rank (as one unit) and other ranks; well-ordered interleaving
+    units = []
+    seen_flat = False
+    for r in list(outr) + [r for r in ranks if r not in outr]:
+        if flat and r in flat[0]:
+            if not seen_flat:
+                units.append(flat[1])
+                seen_flat = True
+        else:
+            units.append(r)
+    rng.shuffle(units)
+    seqs = [list(lv.get(u, [u])) for u in units]
+    loop = []
+    while any(seqs):
+        s = rng.choice([q for q in seqs if q])
+        loop.append(s.pop(0))
+    m["loop-order"] = {out: loop}
+    return m, syms
